@@ -16,6 +16,14 @@ RULES = {
     "fixed": {"title": "fixed", "name": "fixed", "logsource": {"category": "e"}, "detection": {"selection": {"a": 1}, "filter": {"b": 2}, "condition": ["selection and not filter", "selection"]}},
     "badcased": {"title": "badcased", "name": "badcased", "logsource": {"category": "c", "product": "linux"}, "detection": {"s": {"User|expand|cased": "/home/%unknown%/*", "k": "v"}, "condition": "s"}},
     "strict": {"title": "strict", "name": "strict", "logsource": {"category": "m"}, "detection": {"s": {"fieldA": "probe"}, "condition": "s"}},
+    "strictbad": {"title": "strictbad", "name": "strictbad", "logsource": {"category": "m"}, "detection": {"s": {"fieldA": "probe", "unmapped_field": "x"}, "condition": "s"}},      # fails the strict mapping check; the next rule must not
+    # one condition object, rules whose compared attribute has a different TYPE (what the condition derives from one rule's value must not serve the next)
+    "rev_num": {"title": "rev_num", "name": "rev_num", "rev": 5, "logsource": {"category": "n"}, "detection": {"s": {"k": "v"}, "condition": "s"}},
+    "rev_low": {"title": "rev_low", "name": "rev_low", "rev": 1, "logsource": {"category": "n"}, "detection": {"s": {"k": "v"}, "condition": "s"}},
+    "rev_str": {"title": "rev_str", "name": "rev_str", "rev": "abc", "logsource": {"category": "n"}, "detection": {"s": {"k": "v"}, "condition": "s"}},
+    "rev_dt": {"title": "rev_dt", "name": "rev_dt", "rev": __import__("datetime").date(2024, 1, 1), "logsource": {"category": "n"}, "detection": {"s": {"k": "v"}, "condition": "s"}},
+    "rev_none": {"title": "rev_none", "name": "rev_none", "rev": None, "logsource": {"category": "n"}, "detection": {"s": {"k": "v"}, "condition": "s"}},
+    "rev_date": {"title": "rev_date", "name": "rev_date", "rev": "2024-01-01", "modified": "2024-01-01", "logsource": {"category": "n"}, "detection": {"s": {"k": "v"}, "condition": "s"}},
     "sel": {"title": "sel", "name": "sel", "logsource": {"category": "c", "product": "windows"}, "detection": {"sel_a": {"f": "1"}, "sel_b": {"f|exists": False}, "condition": "1 of sel_* and not sel_b"}},
     # the same TEXT with different meaning in different rules: a number and a string, a literal %x% and a placeholder, a plain and a
     # case-sensitive value (whatever a step remembers about one of them must not answer for the other)
@@ -41,10 +49,16 @@ PIPELINE = {"name": "p", "priority": 10, "vars": {"admins": ["root", "admin"]}, 
     # state written INSIDE a nested pipeline, read by a later item of the enclosing one
     {"id": "nestst", "type": "nest", "items": [{"id": "inner_st", "type": "set_state", "key": "nidx", "val": "nwin", "rule_conditions": [{"type": "logsource", "product": "windows"}]}]},
     {"id": "sfxn", "type": "field_name_suffix", "suffix": "_n", "rule_conditions": [{"type": "processing_state", "key": "nidx", "val": "nwin"}]},
+    {"id": "revgate", "type": "field_name_suffix", "suffix": "_rev", "rule_conditions": [{"type": "rule_attribute", "attribute": "rev", "value": "3", "op": "gte"}]},
     {"id": "fail", "type": "rule_failure", "message": "unsupported", "rule_conditions": [{"type": "logsource", "category": "zzz"}]},
     # reads the field-mapping tracking of the pipeline it belongs to: fieldA is mapped by the backend's own (class-level) pipeline
     {"id": "strictmap", "type": "strict_field_mapping_failure", "rule_conditions": [{"type": "logsource", "category": "m"}]}],
-    "postprocessing": [{"type": "embed", "prefix": "[", "suffix": "]"}]}
+    "postprocessing": [{"type": "embed", "prefix": "[", "suffix": "]"}, {"type": "template", "template": "{{ query }} fields={{ rule.fields | join(',') }}"}]}
+# the fields list of a rule: set from the configuration, then edited per rule (the configuration must not drift with the rules converted)
+PIPELINE["transformations"].insert(0, PIPELINE["transformations"].pop())          # the strict mapping check first: later items of this pipeline rename every field (which counts as mapped)
+PIPELINE["transformations"][2:2] = [{"id": "setf", "type": "set_field", "fields": ["host", "user"]},
+                                    {"id": "addf", "type": "add_field", "field": "EventID", "rule_conditions": [{"type": "logsource", "product": "windows"}]},
+                                    {"id": "remf", "type": "remove_field", "field": "user", "rule_conditions": [{"type": "logsource", "product": "linux"}]}]
 
 
 @register
